@@ -60,6 +60,10 @@ type IndexedState struct {
 
 	cachedRules map[string]*Rule
 
+	// cachedRulesMutex protects cachedRules, which is used both
+	// with and without the state lock held.
+	cachedRulesMutex sync.Mutex
+
 	addHook AddHookFn
 
 	remHook RemHookFn
@@ -254,7 +258,9 @@ func extractTermsAux(ctx *Context, x interface{}, terms StringSet, depth int) {
 
 func (s *IndexedState) Add(ctx *Context, id string, x Map) (string, error) {
 	Log(DEBUG, ctx, "IndexedState.Add", "state", s.Name, "factx", x, "id", id)
+	s.cachedRulesMutex.Lock()
 	delete(s.cachedRules, id)
+	s.cachedRulesMutex.Unlock()
 	s.slock(ctx, false)
 	id, err := s.add(ctx, id, x)
 	var js []byte
@@ -429,7 +435,9 @@ func (s *IndexedState) Rem(ctx *Context, id string) (bool, error) {
 
 func (s *IndexedState) rem(ctx *Context, id string) (bool, error) {
 	Log(DEBUG, ctx, "IndexedState.rem", "name", s.Name, "id", id)
+	s.cachedRulesMutex.Lock()
 	delete(s.cachedRules, id)
+	s.cachedRulesMutex.Unlock()
 
 	// Currently we don't return an error if the fact isn't found.
 	// ToDo: Reconsider.  For example, maybe have an additional
@@ -523,7 +531,9 @@ func (s *IndexedState) Clear(ctx *Context) error {
 	s.slock(ctx, false)
 	defer s.sunlock(ctx, false)
 
+	s.cachedRulesMutex.Lock()
 	s.cachedRules = make(map[string]*Rule)
+	s.cachedRulesMutex.Unlock()
 	if err := s.remHooks(ctx); err != nil {
 		return err
 	}
@@ -541,7 +551,9 @@ func (s *IndexedState) Delete(ctx *Context) error {
 	s.slock(ctx, false)
 	defer s.sunlock(ctx, false)
 
+	s.cachedRulesMutex.Lock()
 	s.cachedRules = make(map[string]*Rule)
+	s.cachedRulesMutex.Unlock()
 	if err := s.remHooks(ctx); err != nil {
 		return err
 	}
@@ -776,6 +788,8 @@ func (s *IndexedState) FindCachedRules(ctx *Context, event Map) (map[string]*Rul
 	}
 
 	acc := make(map[string]*Rule)
+	s.cachedRulesMutex.Lock()
+	defer s.cachedRulesMutex.Unlock()
 	for id, r := range rules {
 		if _, isCached := s.cachedRules[id]; isCached {
 			acc[id] = s.cachedRules[id]
